@@ -1,14 +1,18 @@
 import GdVerif.Proto.McCodec
+import GdVerif.Proto.Unreal2
 /-
   The operations of the packet reader as one datatype, so that "every
   sequence of operations" is a `List ROp`.
+
+  `su2` is the fourth `StringDecoder` of the crate, `Unreal2StringDecoder`
+  (protocols/unreal2/protocol.rs), read through the same `Buffer::read_string`.
 -/
 namespace Gd
 
 inductive ROp
   | u (w : Nat) | i (w : Nat) | mv (off : Int)
   | s8 (d : UInt8) | sl (d : UInt8) | s16 (e : Endian) (d0 d1 : UInt8)
-  | sw (n : Nat) | vi | vs
+  | sw (n : Nat) | vi | vs | su2
   deriving Repr
 
 inductive RVal
@@ -25,6 +29,7 @@ def ROp.exec (e : Endian) : ROp → Par RVal
   | .sw n => do let s ← switchEndianChunk n; pure (.str s)
   | .vi => do let n ← Mc.getVarint; pure (.int (toSigned 32 n))
   | .vs => do let s ← Mc.getString; pure (.str s)
+  | .su2 => do let s ← Unreal2.readU2Str; pure (.str s)
 
 /-- The reader after one operation: a failed operation leaves it where it was
 (the model's `Par` returns no buffer on failure; that the real reader's
